@@ -283,6 +283,10 @@ func runJob(P *Program, job *Job) (res *JobResult) {
 	m.inBase = true
 	st, msg := m.guarded(func() {
 		m.runInits()
+		// optional harness hook declaring the lock discipline of frugal's process-wide caches
+		if gf := P.findFunc("github.com/cloudwego/frugal/internal/reflect.VerifGuards"); gf != nil {
+			m.callFunction(gf, nil, nil)
+		}
 		if job.Setup != "" {
 			sf := P.findFunc(job.Setup)
 			if sf == nil {
@@ -311,6 +315,12 @@ func runJob(P *Program, job *Job) (res *JobResult) {
 		return
 	}
 	m.inBase = false
+	// monitor violations during the decision-free setup (e.g. lock discipline while registering) have no symbolic witness
+	for _, v := range m.violations {
+		v.Phase = "setup"
+		v.Nondets = []NondetVal{}
+		res.Violations = append(res.Violations, v)
+	}
 	base := m.snapshot()
 	// ---- path exploration (DFS over decision prefixes) ----
 	work := []pendingPath{{}}
